@@ -155,7 +155,12 @@ func init() {
 			x.Default = p.Flow("X", "end", "").ID
 			defs, err := ParseDefs(p.XML(`<bpmn:signal id="s0" name="s0"/>`))
 			must(err)
-			in, err := StartInst(defs, InstOpt{Vars: map[string]any{"again": true, "n": 0}})
+			// every other round the instance starts without any variable (the first answer stores the first ones)
+			opt := InstOpt{Vars: map[string]any{"again": true, "n": 0}}
+			if r%2 == 1 {
+				opt = InstOpt{}
+			}
+			in, err := StartInst(defs, opt)
 			must(err)
 			stop := make(chan struct{})
 			var wg sync.WaitGroup
@@ -174,7 +179,13 @@ func init() {
 				}()
 			}
 			loc := in.P.Locator()
-			reader(func() { loc.CloneVariables() })
+			reader(func() {
+				n := 0
+				for range loc.CloneVariables() { // a reader looks at what it was given
+					n++
+				}
+				_ = n
+			})
 			reader(func() { loc.GetVariable("n") })
 			reader(func() { loc.CloneItems(".") })
 			reader(func() { loc.CloneItems("$"); loc.CloneItems("#") })
